@@ -112,8 +112,10 @@ def exc_site(e):
         if "/pgmpy/" in fr.filename:
             return f"{fr.filename.split('/pgmpy/')[-1]}:{fr.name}"
     if tb:
+        # no pgmpy frame at all: the exception was raised by the scenario's own code (or by a library it called directly) -
+        # a defect of the harness, never a violation (the worker turns such records into harness errors, exit 2)
         fr = tb[-1]
-        return f"{fr.filename.split('/')[-1]}:{fr.name}"
+        return f"HARNESS:{fr.filename.split('/')[-1]}:{fr.name}"
     return "?"
 
 
